@@ -6,6 +6,7 @@ CONSTANTS
   MaxOps = 6
   ShareOnReverse = FALSE
   InitKinds = {"min", "max"}
+  InitItems <- InitItemsDef
 INVARIANTS TypeOK Contents ResultOK HeapOK
 PROPERTIES ReverseIndependent Isolation
 CHECK_DEADLOCK FALSE
